@@ -170,7 +170,7 @@ def run_property(pid, tier="quick", seed=0):
                     samples.append({"obligation": it["obligation"], "source": f"{it['file']}:{it['lines'][0]}-{it['lines'][1]}",
                                     "contract": it["contract"][:1200]})
             for x in it["rules"]:
-                if x["rule"] in ("R-LOG", "R-XBODY", "R-PROJ", "R-BOUND", "R-LIFT", "R-XEXPR"):
+                if x["rule"] in ("R-LOG", "R-XBODY", "R-PROJ", "R-BOUND", "R-LIFT", "R-XEXPR", "R-XSTMTS"):
                     rules_fired.append(f"{o['unit']}:{it['name']}:{x['rule']}")
         for (ln, what, line) in r["cheats"]:
             assumptions.add(f"{o['unit']}: {what}: {line}")
